@@ -16,14 +16,18 @@
 (*                                                                                     *)
 (* Layer A (contract): the frames as the client meant them, and the one response each     *)
 (* complete frame must get, in order. Layer B (design): the server loop of client.rs      *)
-(* (ReadLen, RejectLen, ReadBody, RejectUtf8, Dispatch, Respond), step by step.           *)
+(* (ReadLen, RejectLen, DiscardBody, ReadBody, RejectUtf8, Dispatch, Respond), step by    *)
+(* step. client.rs reads and discards the announced body of an oversized frame before it   *)
+(* answers (DiscardOversized = TRUE); the server that answers without consuming the body   *)
+(* (DiscardOversized = FALSE, the code before commit 6b5fd09) is kept as a mutant that the  *)
+(* contract must reject.                                                                 *)
 (* Payloads are identified by their position range <<lo, hi>> in the stream, so the       *)
 (* binding can instantiate every position with arbitrary bytes of its class.              *)
 (***************************************************************************************)
 EXTENDS Naturals, Sequences
 
 CONSTANTS MaxFrame,          \* largest accepted body length, in symbols
-          ConsumeOversized   \* FALSE: RejectLen as client.rs has it; TRUE: the announced body is discarded
+          DiscardOversized   \* TRUE: client.rs (oversized body read and discarded); FALSE: mutant, body left in the socket
 
 SP == 0
 P == 1
@@ -95,7 +99,7 @@ HasOversized(s) == \E i \in 1 .. Len(Frames(s, 1)) : LET x == Frames(s, 1)[i] IN
 (* ---------------- layer B: the server loop of client.rs ---------------- *)
 VARIABLES stream,   \* what the client sends, then EOF
           pos,      \* next unread position of the socket
-          pc,       \* ReadLen | RejectLen | ReadBody | RejectUtf8 | Dispatch | Respond | Done
+          pc,       \* ReadLen | RejectLen | DiscardBody | ReadBody | RejectUtf8 | Dispatch | Respond | Done
           flen,     \* frame_len
           blo, bhi, \* buf = stream[blo..bhi]
           fifo,     \* the data plane
@@ -119,14 +123,29 @@ ReadLen ==
           /\ pc' = IF stream[pos] = 0 \/ stream[pos] > MaxFrame THEN "RejectLen" ELSE "ReadBody"
   /\ UNCHANGED <<stream, blo, bhi, fifo, pending, resp>>
 
-(* if frame_len == 0 || frame_len > MAX_FRAME_LEN { send "ERR invalid frame length"; continue } *)
+(* if frame_len == 0 || frame_len > MAX_FRAME_LEN {                                        *)
+(*     let mut remaining = frame_len; while remaining > 0 { read_exact(sink[..n])?; .. }    *)
+(*     send_response("ERR invalid frame length"); continue }                               *)
+(* A zero length has nothing to discard; an oversized one goes through DiscardBody first.   *)
 RejectLen ==
   /\ pc = "RejectLen"
-  /\ resp' = Append(resp, Err)
-  /\ pos' = IF ConsumeOversized /\ flen > MaxFrame
-            THEN (IF pos + flen - 1 > Len(stream) THEN Len(stream) + 1 ELSE pos + flen)
-            ELSE pos                                   \* client.rs: nothing is consumed
-  /\ pc' = "ReadLen"
+  /\ IF flen > 0 /\ DiscardOversized
+     THEN /\ pc' = "DiscardBody"
+          /\ UNCHANGED resp
+     ELSE /\ resp' = Append(resp, Err)
+          /\ pc' = "ReadLen"
+  /\ UNCHANGED <<stream, pos, flen, blo, bhi, fifo, pending>>
+
+(* the discard loop: EOF inside the announced body closes the connection without a response *)
+DiscardBody ==
+  /\ pc = "DiscardBody"
+  /\ IF pos + flen - 1 > Len(stream)
+     THEN /\ pos' = Len(stream) + 1
+          /\ pc' = "Done"
+          /\ UNCHANGED resp
+     ELSE /\ pos' = pos + flen
+          /\ resp' = Append(resp, Err)
+          /\ pc' = "ReadLen"
   /\ UNCHANGED <<stream, flen, blo, bhi, fifo, pending>>
 
 (* socket.read_exact(&mut buf)?  -- EOF inside the body closes the connection, no response *)
@@ -165,5 +184,5 @@ Respond ==
   /\ pc' = "ReadLen"
   /\ UNCHANGED <<stream, pos, flen, blo, bhi, fifo, pending>>
 
-Next == ReadLen \/ RejectLen \/ ReadBody \/ RejectUtf8 \/ Dispatch \/ Respond
+Next == ReadLen \/ RejectLen \/ DiscardBody \/ ReadBody \/ RejectUtf8 \/ Dispatch \/ Respond
 ===================================================================================
